@@ -1,9 +1,11 @@
 //! verification harness for DanielT/autosar-data (runtime monitoring)
 #![allow(clippy::too_many_arguments, clippy::type_complexity, clippy::collapsible_if, clippy::collapsible_else_if)]
+pub mod c01;
 pub mod c14perm;
 pub mod c18;
 pub mod c19;
 pub mod c20;
+pub mod docgen;
 pub mod genmodel;
 pub mod hist;
 pub mod histprops;
@@ -14,7 +16,10 @@ pub mod monitors;
 pub mod panicmon;
 pub mod report;
 pub mod rng;
+pub mod refcmp;
+pub mod refxml;
 pub mod rx;
+pub mod specdoc;
 pub mod specwalk;
 pub mod srcindex;
 pub mod values;
